@@ -228,8 +228,12 @@ func cmdCheck(args []string) int {
 	assumptions := map[string]bool{}
 	trustedUsed := map[string]bool{}
 	for _, c := range P.Ordered {
+		alsoOnly := false
 		if !hasProp(c.Props, *prop) {
-			continue
+			if len(c.Also[*prop]) == 0 {
+				continue
+			}
+			alsoOnly = true
 		}
 		if *only != "" && !strings.Contains(c.Key, *only) && !strings.Contains(c.Name, *only) {
 			continue
@@ -261,6 +265,17 @@ func cmdCheck(args []string) int {
 			continue
 		}
 		for _, o := range g.obls {
+			if alsoOnly {
+				keep := false
+				for _, l := range c.Also[*prop] {
+					if strings.HasSuffix(o.Name, "/"+l) || strings.Contains(o.Name, "/"+l+"@") {
+						keep = true
+					}
+				}
+				if !keep {
+					continue
+				}
+			}
 			o.NFacts = max(o.NFacts, 0)
 			if o.Kind == "lemma" {
 				o.NFacts = len(g.facts)
